@@ -7,7 +7,8 @@
             reject at <i>: model expected <e'>, trace has <e>
    The schedule choice of each step (spin again / move on, ...) is read off the trace (the
    alternative whose event equals the traced one and whose successor agrees in shape with the
-   thread's next traced event); the decisive check is the extracted `replay_trace`.
+   thread's next traced event); the decisive check is the extracted strict `replay` (Conc.v), run
+   chunk by chunk (48 events) from re-tabulated states so that long traces stay linear.
    `--skeleton` as the only token of a line prints the model's D3 table. *)
 open Model_k3lock
 open Conv_k3lock
@@ -127,9 +128,26 @@ let run_mutex (threads : string list list) (res : string) (evs : raw list) : str
     (match Hashtbl.find_opt last t with Some j -> nxt.(i) <- j | None -> ());
     Hashtbl.replace last t i
   done;
-  let s = ref (minit progf) in
+  let s0 = minit progf in
+  let tab : 'a. (nat -> 'a) -> (nat -> 'a) -> nat -> 'a = fun f d ->
+    let a = Array.init nthr (fun i -> f (nat_of_int i)) in
+    fun t -> let i = int_of_nat t in if i < nthr then a.(i) else d t in
+  (* same state, function fields re-tabulated (keeps lookups O(1) on long traces) *)
+  let compact (s : mstate) : mstate =
+    { s with narm = tab s.narm s0.narm; nwk = tab s.nwk s0.nwk; token = tab s.token s0.token;
+             bwoken = tab s.bwoken s0.bwoken; prog = tab s.prog s0.prog; pcs = tab s.pcs s0.pcs;
+             fut = tab s.fut s0.fut } in
+  let s = ref s0 in
+  let start = ref s0 in
   let tr = ref [] in
+  let all = ref [] in
   let failed = ref None in
+  (* the decisive check, chunk by chunk: the extracted strict replay accepts the chunk *)
+  let verify upto =
+    (match replay_from progf !start (List.rev !tr) with
+     | Inl (Some sf) -> s := compact sf; start := !s; all := !tr @ !all; tr := []
+     | Inl None -> failed := Some "reject: replay returned no state"; raise Exit
+     | Inr k -> failed := Some (Printf.sprintf "reject at %d: extracted replay refused the step" (upto - int_of_nat k)); raise Exit) in
   (try
      for i = 0 to n - 1 do
        let (ti, e) = mevs.(i) in
@@ -144,34 +162,32 @@ let run_mutex (threads : string list list) (res : string) (evs : raw list) : str
           List.exists (fun c -> match peek s' t c with Some e'' -> shape e'' = shape en | None -> false) [ChGo; ChAgain])
        in
        let pick = match List.filter good cands with x :: _ -> Some x | [] -> (match cands with x :: _ -> Some x | [] -> None) in
-       match pick with
-       | Some (c, s') -> tr := ((t, c), e) :: !tr; s := s'
-       | None ->
-           let exp = match peek !s t ChGo, peek !s t ChAgain with
-             | Some a, Some b when a <> b -> ev_s a ^ " | " ^ ev_s b
-             | Some a, _ -> ev_s a
-             | None, Some b -> ev_s b
-             | None, None -> "(thread not enabled)" in
-           failed := Some (Printf.sprintf "reject at %d: model expected t%d %s, trace has t%d %s" i ti exp ti (ev_s e));
-           raise Exit
-     done
+       (match pick with
+        | Some (c, s') -> tr := ((t, c), e) :: !tr; s := s'
+        | None ->
+            let exp = match peek !s t ChGo, peek !s t ChAgain with
+              | Some a, Some b when a <> b -> ev_s a ^ " | " ^ ev_s b
+              | Some a, _ -> ev_s a
+              | None, Some b -> ev_s b
+              | None, None -> "(thread not enabled)" in
+            failed := Some (Printf.sprintf "reject at %d: model expected t%d %s, trace has t%d %s" i ti exp ti (ev_s e));
+            raise Exit);
+       if (i + 1) mod 48 = 0 then verify i
+     done;
+     verify (n - 1)
    with Exit -> ());
   match !failed with
   | Some m -> m
   | None ->
-      (* the decisive check: the extracted strict replay accepts the whole trace *)
-      (match replay_trace progf (List.rev !tr) with
-       | Inl (Some sf) ->
-           let per = Array.make nthr [] in
-           List.iter (fun (t, r) -> let i = int_of_nat t in if i < nthr then per.(i) <- res_s r :: per.(i)) (results sf);
-           let mres = String.concat "/" (Array.to_list (Array.map (fun l -> if l = [] then "-" else String.concat "," (List.rev l)) per)) in
-           if Sys.getenv_opt "K3LOCK_EMIT" <> None then
-             "sched [" ^ String.concat "; " (List.map (fun ((t, c), _) ->
-                 Printf.sprintf "(%d, %s)" (int_of_nat t) (match c with ChGo -> "ChGo" | ChAgain -> "ChAgain")) (List.rev !tr)) ^ "]"
-           else if mres = res then Printf.sprintf "ok %d res=%s" n res
-           else Printf.sprintf "reject results: model res=%s, implementation res=%s" mres res
-       | Inl None -> "reject: replay returned no state"
-       | Inr k -> Printf.sprintf "reject at %d: extracted replay refused the step" (n - 1 - int_of_nat k))
+      let sf = !s in
+      let per = Array.make nthr [] in
+      List.iter (fun (t, r) -> let i = int_of_nat t in if i < nthr then per.(i) <- res_s r :: per.(i)) (results sf);
+      let mres = String.concat "/" (Array.to_list (Array.map (fun l -> if l = [] then "-" else String.concat "," (List.rev l)) per)) in
+      if Sys.getenv_opt "K3LOCK_EMIT" <> None then
+        "sched [" ^ String.concat "; " (List.map (fun ((t, c), _) ->
+            Printf.sprintf "(%d, %s)" (int_of_nat t) (match c with ChGo -> "ChGo" | ChAgain -> "ChAgain")) (List.rev !all)) ^ "]"
+      else if mres = res then Printf.sprintf "ok %d res=%s" n res
+      else Printf.sprintf "reject results: model res=%s, implementation res=%s" mres res
 
 (* ------------------------------------------------------------------ skeleton (D3) *)
 let fn_s = function
@@ -222,10 +238,24 @@ let run_rwlock (threads : string list list) (res : string) (evs : raw list) : st
     (match Hashtbl.find_opt last t with Some j -> nxt.(i) <- j | None -> ());
     Hashtbl.replace last t i
   done;
-  let s = ref (rwinit progf) in
+  let s0 = rwinit progf in
+  let tab : 'a. (nat -> 'a) -> (nat -> 'a) -> nat -> 'a = fun f d ->
+    let a = Array.init nthr (fun i -> f (nat_of_int i)) in
+    fun t -> let i = int_of_nat t in if i < nthr then a.(i) else d t in
+  let compact (s : rwstate) : rwstate =
+    { s with rnarm = tab s.rnarm s0.rnarm; rnwk = tab s.rnwk s0.rnwk; rtoken = tab s.rtoken s0.rtoken;
+             rbwoken = tab s.rbwoken s0.rbwoken; rprog = tab s.rprog s0.rprog; rpcs = tab s.rpcs s0.rpcs;
+             rfut = tab s.rfut s0.rfut } in
+  let s = ref s0 in
+  let start = ref s0 in
   let tr = ref [] in
   let failed = ref None in
   let choices = [RGo; RAgain; RSpur] in
+  let verify upto =
+    (match rw_replay_from progf !start (List.rev !tr) with
+     | Inl (Some sf) -> s := compact sf; start := !s; tr := []
+     | Inl None -> failed := Some "reject: replay returned no state"; raise Exit
+     | Inr k -> failed := Some (Printf.sprintf "reject at %d: extracted replay refused the step" (upto - int_of_nat k)); raise Exit) in
   (try
      for i = 0 to n - 1 do
        let (ti, e) = mevs.(i) in
@@ -240,27 +270,26 @@ let run_rwlock (threads : string list list) (res : string) (evs : raw list) : st
           List.exists (fun c -> match rwpeek s' t c with Some e'' -> shape e'' = shape en | None -> false) choices)
        in
        let pick = match List.filter good cands with x :: _ -> Some x | [] -> (match cands with x :: _ -> Some x | [] -> None) in
-       match pick with
-       | Some (c, s') -> tr := ((t, c), e) :: !tr; s := s'
-       | None ->
-           let exps = List.sort_uniq compare (List.filter_map (fun c -> match rwpeek !s t c with Some a -> Some (ev_s a) | None -> None) choices) in
-           let exp = if exps = [] then "(thread not enabled)" else String.concat " | " exps in
-           failed := Some (Printf.sprintf "reject at %d: model expected t%d %s, trace has t%d %s" i ti exp ti (ev_s e));
-           raise Exit
-     done
+       (match pick with
+        | Some (c, s') -> tr := ((t, c), e) :: !tr; s := s'
+        | None ->
+            let exps = List.sort_uniq compare (List.filter_map (fun c -> match rwpeek !s t c with Some a -> Some (ev_s a) | None -> None) choices) in
+            let exp = if exps = [] then "(thread not enabled)" else String.concat " | " exps in
+            failed := Some (Printf.sprintf "reject at %d: model expected t%d %s, trace has t%d %s" i ti exp ti (ev_s e));
+            raise Exit);
+       if (i + 1) mod 48 = 0 then verify i
+     done;
+     verify (n - 1)
    with Exit -> ());
   match !failed with
   | Some m -> m
   | None ->
-      (match rw_replay_trace progf (List.rev !tr) with
-       | Inl (Some sf) ->
-           let per = Array.make nthr [] in
-           List.iter (fun (t, r) -> let i = int_of_nat t in if i < nthr then per.(i) <- rres_s r :: per.(i)) sf.rresults;
-           let mres = String.concat "/" (Array.to_list (Array.map (fun l -> if l = [] then "-" else String.concat "," (List.rev l)) per)) in
-           if mres = res then Printf.sprintf "ok %d res=%s" n res
-           else Printf.sprintf "reject results: model res=%s, implementation res=%s" mres res
-       | Inl None -> "reject: replay returned no state"
-       | Inr k -> Printf.sprintf "reject at %d: extracted replay refused the step" (n - 1 - int_of_nat k))
+      let sf = !s in
+      let per = Array.make nthr [] in
+      List.iter (fun (t, r) -> let i = int_of_nat t in if i < nthr then per.(i) <- rres_s r :: per.(i)) sf.rresults;
+      let mres = String.concat "/" (Array.to_list (Array.map (fun l -> if l = [] then "-" else String.concat "," (List.rev l)) per)) in
+      if mres = res then Printf.sprintf "ok %d res=%s" n res
+      else Printf.sprintf "reject results: model res=%s, implementation res=%s" mres res
 
 let rfn_s = function
   | RfTryAcqR -> "try_acquire_read" | RfTryAcqW -> "try_acquire_write" | RfRead -> "read" | RfReadSlow -> "read_slow"
